@@ -46,9 +46,24 @@ class StepSizeCC(ctrl.ArbitraryCC):
             L.params.dt = self.dtnew
 
 
+def make_paradiag_controller(mk, n):
+    """REAL controller_ParaDiag_nonMPI with n real steps (numeric test equation; only the time bookkeeping of run() is under contract here)"""
+    from pySDC.implementations.controller_classes.controller_ParaDiag_nonMPI import controller_ParaDiag_nonMPI
+    from pySDC.implementations.problem_classes.TestEquation_0D import testequation0d
+    from pySDC.implementations.sweeper_classes.ParaDiagSweepers import QDiagonalization
+
+    trace = []
+    d = dict(problem_class=testequation0d, problem_params=dict(lambdas=-1.0 * np.ones(2), u0=1.0), sweeper_class=QDiagonalization,
+             sweeper_params=dict(num_nodes=2, quad_type='RADAU-RIGHT', initial_guess='spread'), level_params=dict(dt=0.1, restol=1e-8), step_params=dict(maxiter=9))
+    c = controller_ParaDiag_nonMPI(num_procs=n, controller_params=dict(logger_level=40, alpha=1e-4, mssdc_jac=False, dump_setup=False, hook_class=[ctrl.make_rec_hook(trace)]), description=d)
+    c._Controller__hooks = [h for h in c.hooks if type(h).__name__ == 'RecHook']
+    return c, trace
+
+
 def setup_run(mk, inst):
     n, nl = inst['n'], inst.get('nlevels', 1)
-    c, trace = ctrl.make_controller(mk, n, nlevels=nl)
+    paradiag = bool(inst.get('paradiag'))
+    c, trace = make_paradiag_controller(mk, n) if paradiag else ctrl.make_controller(mk, n, nlevels=nl)
     fresh = ctrl.Fresh(mk)
     cc = StepSizeCC(trace, fresh, mk)
     c.convergence_controllers = [cc]
@@ -61,7 +76,7 @@ def setup_run(mk, inst):
         dts.append(dt)
         for L in S.levels:
             L.params.dt = dt
-    st = State(c=c, trace=trace, cc=cc, fresh=fresh, n=n, nl=nl, inst=inst, dts=dts, mk=mk, uends={}, ustarts={})
+    st = State(c=c, trace=trace, cc=cc, fresh=fresh, n=n, nl=nl, inst=inst, dts=dts, mk=mk, uends={}, ustarts={}, paradiag=paradiag)
 
     def restart_block(active_slots, time, u0):
         # contract of restart_block (proved under C07)
@@ -94,7 +109,10 @@ def setup_run(mk, inst):
         return True
 
     c.restart_block = restart_block
-    c.pfasst = pfasst
+    if paradiag:
+        c.ParaDiag = pfasst  # same block contract: the block finishes, end values present, restart requests arbitrary
+    else:
+        c.pfasst = pfasst
     st.cut = Cut(type(c).run, 0, kind='while')
     trace.clear()
     return st
@@ -115,7 +133,11 @@ def inv_clauses(st, L, tag='inv'):
     a = len(aslots)
     yield f'{tag}:active_slots_is_prefix', list(aslots) == list(range(a))
     for p in range(n):
-        yield f'{tag}:active_flag[{p}]', Iff(active[p], time[p] < thr(Tend))
+        if st.paradiag:
+            # all-or-nothing blocks: every slot is active as long as the FIRST one starts before Tend
+            yield f'{tag}:active_flag[{p}]', Iff(active[p], time[0] < thr(Tend))
+        else:
+            yield f'{tag}:active_flag[{p}]', Iff(active[p], time[p] < thr(Tend))
         yield f'{tag}:active_slot_membership[{p}]', Iff(active[p], p < a)
     for p in range(1, a):
         yield f'{tag}:time_accumulates[{p}]', seq(time[p], time[p - 1] + c.MS[p - 1].dt)
@@ -188,7 +210,11 @@ def arbitrary_head(st, mk, a):
         else:
             time.append(time[p - 1] + st.dts[p - 1])
     for p in range(n):
-        mk.assume(time[p] < thr(Tend) if p < a else Not(time[p] < thr(Tend)), 'Inv: active prefix')
+        if st.paradiag:
+            if p == 0:
+                mk.assume(time[0] < thr(Tend) if a > 0 else Not(time[0] < thr(Tend)), 'Inv: all-or-nothing block')
+        else:
+            mk.assume(time[p] < thr(Tend) if p < a else Not(time[p] < thr(Tend)), 'Inv: active prefix')
     active = [p < a for p in range(n)]
     for p in range(a):
         S = c.MS[p]
@@ -259,6 +285,9 @@ class RunBody(_RunBase):
             yield f'accepted_contiguous[{p}]', seq(t_old[p], t_old[p - 1] + dt_old[p - 1])
         for p in range(r):
             yield f'accepted_step_started_before_Tend[{p}]', t_old[p] < thr(L['Tend'])
+        if st.paradiag and r < a:
+            # the partially restarted block is repeated with ALL slots again
+            pass
         psp = [e[2] for e in tr if e[0] == 'cc' and e[1] == 'post_step_processing']
         yield 'post_step_processing_exactly_for_accepted_steps', psp == list(range(r))
         pnb = [e[2] for e in tr if e[0] == 'cc' and e[1] == 'prepare_next_block']
